@@ -65,7 +65,7 @@ Theorem C07_ghost_records : forall st g o,
        | _, _ => g_dep g
        end)
       (match o, snd (step st o) with
-       | Withdraw _ _ who _ _, [c; paid; _] => if c =? OK then bt_upd (g_wd g) who paid else g_wd g
+       | Withdraw _ _ who _ _ _, [c; paid; _] => if c =? OK then bt_upd (g_wd g) who paid else g_wd g
        | _, _ => g_wd g
        end).
 Proof. exact ghost_records. Qed.
